@@ -149,6 +149,14 @@ def run_check(chk, tier, replay=None):
         else:
             impl = run_impl([c.line for c in runnable])
 
+    # a case that timed out (machine under load) is re-run alone before anything is concluded
+    slow = [c for c in runnable if RunRes(impl.get(c.id, [])).outcome in ("timeout", "noresult")]
+    if slow and len(slow) <= 50:
+        again = run_impl([c.line for c in slow], jobs=1)
+        for c in slow:
+            if again.get(c.id):
+                impl[c.id] = again[c.id]
+
     failing = []        # (case, why, impl, model)
     disagreements = []
     inconclusive = 0
@@ -156,6 +164,9 @@ def run_check(chk, tier, replay=None):
     for c in runnable:
         a = RunRes(impl.get(c.id, []))
         why = None
+        if a.outcome in ("timeout", "noresult") and not getattr(chk, "timeout_is_violation", False):
+            inconclusive += 1
+            continue
         try:
             why = chk.oracle(c, a)
         except Exception as e:
